@@ -380,6 +380,17 @@ def make_client_case(rng, scenario):
     return {"cluster": spec, "ops": ops, "meta": {"family": "client", "scenario": scenario, "route": "client", "build_at": 0}}
 
 
+def make_idle_case(rng):
+    """the idle time-out is about idleness: requests 1.6 s apart on a connection whose time-out is 3 s never reconnect, although the
+    third one is sent 3.2 s after the connection was opened (real time passes in the harness; the margin is 1.4 s)"""
+    coord = rng.choice([1, 2])
+    spec = cluster_spec("client_observe", coord, committed=True)
+    ops = [T("client_new", [[H1, H2]]), T("set_connection_idle_timeout", [3, 0]), T("get_config"), T("load_metadata_all")]
+    prod = lambda i: T("produce_messages", [1, 1, 500000000, [pm(T1, 0, b"k", b"idle%d" % i)]])
+    ops += [prod(0), T("sleep_ms", [1600]), prod(1), T("sleep_ms", [1600]), prod(2), T("sleep_ms", [1600]), prod(3)]
+    return {"cluster": spec, "ops": ops, "meta": {"family": "client", "scenario": "client_idle", "route": "client", "build_at": 0}}
+
+
 def small_call_sets(rng, family, n):
     """seeded lists of 3-4 builder calls that interact (repeats, client id vs with_partitioner, crc, durations)"""
     out = []
@@ -410,6 +421,8 @@ def gen(rng, tier):
         cases.append(make_client_case(rng, "client_observe"))
     for _ in range(50 if quick else 800):
         cases.append(make_client_case(rng, "client_attempts"))
+    for _ in range(2 if quick else 6):
+        cases.append(make_idle_case(rng))
     for scenario, n in (("crc", 200), ("retry_limit", 70), ("attempts_commit", 40), ("attempts_build", 30)):
         for _ in range(n if quick else n * 15):
             cases.append(make_consumer_case(rng, scenario))
